@@ -62,9 +62,19 @@ impl InstructionGenerator {
         let args = self.generate_push_unnamed_args_instructions(args, pos);
         self.push(Instruction::PushStack, pos);
         self.push(Instruction::BuiltInSub(name), pos);
-        self.generate_stash_by_ref_args(&args);
+        // only the statements that assign to their arguments copy them back: after
+        // `POKE VARPTR(V%) + 1, V%` the variable holds what POKE wrote
+        let assigns_arguments = matches!(
+            name,
+            BuiltInSub::Input | BuiltInSub::LineInput | BuiltInSub::Read | BuiltInSub::LSet
+        );
+        if assigns_arguments {
+            self.generate_stash_by_ref_args(&args);
+        }
         self.push(Instruction::PopStack, pos);
-        self.generate_un_stash_by_ref_args(&args);
+        if assigns_arguments {
+            self.generate_un_stash_by_ref_args(&args);
+        }
     }
 
     pub fn generate_function_call_instructions(
